@@ -393,6 +393,10 @@ def c19_obligations(tier, seed):
         add("nonmembership_children%d" % n, "a NonMembershipProof message round-trips with exactly 2 children and is rejected with any other number", "%d children" % n, "decode_any", cap=(1200, 2400))
     add("update_roundtrip_with_prev", "UpdateProof -> message -> UpdateProof is the identity (previous-version proof present)", "1-2 byte strings, 0-1 sibling proofs", "roundtrip")
     add("update_roundtrip_without_prev", "UpdateProof -> message -> UpdateProof is the identity (previous-version proof absent)", "1-2 byte strings, 1 sibling proof", "roundtrip")
+    add("update_roundtrip_tombstone_with_prev", "a tombstoned UpdateProof (value present and EMPTY) survives the round trip", "empty value, 1-2 byte strings, 0-1 sibling proofs", "roundtrip")
+    add("update_roundtrip_tombstone_without_prev", "a tombstoned UpdateProof (value present and EMPTY, no previous-version proof) survives the round trip", "empty value, 1-2 byte strings, 1 sibling proof", "roundtrip")
+    for m in (["value", "existence_proof"] if tier == "quick" else ["epoch", "value", "version", "existence_vrf", "existence_proof", "nonce"]):
+        add("update_missing_" + m, "an UpdateProof message with the required field removed is rejected", "one required field absent", "decode_any")
     add("lookup_roundtrip", "LookupProof -> message -> LookupProof is the identity", "0-2 byte strings, 0-1 sibling proofs per tree proof", "roundtrip", cap=(1800, 3600))
     missing = ["value"] if tier == "quick" else ["epoch", "value", "version", "existence_vrf", "existence_proof", "marker_vrf", "marker_proof", "freshness_vrf", "freshness_proof", "nonce"]
     for m in missing:
